@@ -193,7 +193,8 @@ def gen_tfs(rng):
     ops = []
     for j in range(rng.randrange(1, 7)):
         path = [_case_variant(rng, rng.choice(TFS_FEATS)) for _ in range(rng.choice([1, 1, 2, 2, 3, 4]))]
-        ops.append([path, j + 1])
+        # value 0 = a fresh empty FeatureStructure (an empty AVM as a value)
+        ops.append([path, 0 if rng.random() < 0.2 else j + 1])
     gets = []
     for path, _ in ops:
         gets.append([_case_variant(rng, f) for f in path])
@@ -381,7 +382,7 @@ def observe_tfs(c):
     oks = []
     for path, val in c["ops"]:
         try:
-            f[".".join(path)] = val
+            f[".".join(path)] = val if val != 0 else tfs.FeatureStructure()
             oks.append(True)
         except tfs.TFSError:
             oks.append(False)
@@ -439,6 +440,8 @@ def oracle_tfs(c):
     rng = _r.Random(len(c["ops"]))
     f = tfs.FeatureStructure()
     for path, val in c["ops"]:
+        if val == 0:
+            val = tfs.FeatureStructure()
         try:
             f[".".join(path)] = val
         except tfs.TFSError:
@@ -449,8 +452,20 @@ def oracle_tfs(c):
                 got = f[variant]
             except (KeyError, TypeError) as ex:
                 return "value stored under %s is not retrievable as %s (%s)" % (".".join(path), variant, type(ex).__name__)
-            if got != val:
+            if got is not val and got != val:
                 return "value stored under %s retrieved as %s is %r" % (".".join(path), variant, got)
+    # the feature list (what the formatter prints) covers every stored path: a listed path
+    # continues it, or a listed sub-structure contains it
+    listed = [p.upper().split(".") for p, _ in f.features()]
+    for path, val in c["ops"]:
+        up = [x.upper() for x in path]
+        try:
+            f[".".join(path)]
+        except (KeyError, TypeError):
+            continue        # the assignment was rejected or later replaced by a leaf above it
+        if not any(q[:len(up)] == up or up[:len(q)] == q for q in listed):
+            return "the stored path %s is missing from features(): %r" % (
+                ".".join(path), [".".join(q) for q in listed])
     return None
 
 
